@@ -17,9 +17,13 @@ import (
 // ---------------------------------------------------------------------------------------------
 // argument encoder (the encodings the native decoders read)
 
-type enc struct{ b []byte }
+type enc struct {
+	b     []byte
+	marks []int // offset of every length-prefixed atom (var-bytes / var-uint / count) written
+}
 
 func (e *enc) vb(b []byte) *enc {
+	e.marks = append(e.marks, len(e.b))
 	s := common.NewZeroCopySink(nil)
 	s.WriteVarBytes(b)
 	e.b = append(e.b, s.Bytes()...)
@@ -602,7 +606,22 @@ func genHostile(t *rapid.T, m *model, methods map[string][]string) (natCall, str
 	e := &enc{}
 	mode := "generic"
 	r := rng(t, 0, 99, "argmode")
+	if rng(t, 0, 4, "prefixmode") == 0 {
+		// count / length prefix with nothing (or too little) behind it: take the structure-aware
+		// encoding, replace ONE length-prefixed atom by a hostile count, cut the rest half of the time
+		mode = "prefix-hostile"
+		if have {
+			for i := 0; i < len(shape); i++ {
+				g.slot(e, shape[i], nil)
+			}
+		} else {
+			g.genericAtoms(e)
+		}
+		e.b = prefixHostile(t, e)
+		r = 1000
+	}
 	switch {
+	case r == 1000:
 	case have && r < 70:
 		mode = "shaped"
 		var cur []byte
@@ -640,6 +659,45 @@ func genHostile(t *rapid.T, m *model, methods map[string][]string) (natCall, str
 		c.Caller = hex.EncodeToString(ca[:])
 	}
 	return c, mode
+}
+
+// hostileCounts are the values put into count / length prefixes.
+var hostileCounts = []uint64{1 << 31, 1<<32 - 1, 1 << 33, 1 << 40, 1 << 62, 1<<63 - 1, 1 << 63, 1<<64 - 1}
+
+// prefixHostile replaces one length-prefixed atom of an encoding by a hostile count - either as a
+// native var-uint (var-bytes of the little-endian integer, what utils.DecodeVarUint reads) or as
+// the raw length prefix of the atom itself (what NextVarBytes / NextVarUint read) - and truncates
+// everything behind it with probability 1/2.
+func prefixHostile(t *rapid.T, e *enc) []byte {
+	h := pick(t, hostileCounts, "hcount")
+	if len(e.marks) == 0 {
+		return (&enc{}).vu(h).b
+	}
+	j := rng(t, 0, len(e.marks)-1, "hmark")
+	start := e.marks[j]
+	end := len(e.b)
+	for _, m := range e.marks {
+		if m > start && m < end {
+			end = m
+		}
+	}
+	out := append([]byte{}, e.b[:start]...)
+	if rng(t, 0, 2, "hrawprefix") == 0 {
+		// keep the payload, lie in its length prefix
+		src := common.NewZeroCopySource(e.b[start:end])
+		payload, _, _, eof := src.NextVarBytes()
+		if eof {
+			payload = nil
+		}
+		out = append(out, (&enc{}).rawVarUint(h).b...)
+		out = append(out, payload...)
+	} else {
+		out = append(out, (&enc{}).vu(h).b...)
+	}
+	if rng(t, 0, 1, "htrunc") == 0 {
+		return out
+	}
+	return append(out, e.b[end:]...)
 }
 
 // mutateBytes applies one byte-level mutation (truncate, flip, insert, delete, length tamper).
